@@ -44,6 +44,15 @@ def corpus(tier, seed):
                      checkpoint_on_iteration=False, checkpoint_interval=0.05)
     stale["extra_by_proc"] = {"0": {"kill_after_stale_ckpt": True}}
     specs.append(stale)
+    # a termination signal while a pool is being populated (flow phase): the handler pickles populating=True,
+    # the resumed sampler must carry that flag (it decides whether the flow is trained again)
+    for k_, (n_eval, signum) in enumerate(((260, 15), (420, 2))):
+        sg = std_spec("gauss2", s + 92 + k_, 50)
+        sg["signal_handling"] = True
+        sg["signal_exit"] = 130
+        sg["exit_code"] = 130
+        sg["extra_by_proc"] = {"0": {"signal_at_eval": [n_eval, signum]}}
+        specs.append(sg)
     if tier == "thorough":
         j = len(specs)
         import random
